@@ -98,15 +98,15 @@ ADD = {   # what was added after the seeded-change rounds (DESIGN.md 13); append
  "C06": " Programs also cover a call whose input binding fails and is caught by the caller (all depths must return) and inner declarations / inputs / loop variables / 得到 names that shadow module-level methods and types.",
  "C07": " Binding forms include literals that mention a variable and collections handed to storing methods (后增 / 写入 keep a copy).",
  "C08": " Plus in-place number mutators (自增/自减) on per-instance default properties and wrong-arity calls to a callee that has its own handler (fails in the caller).",
- "C09": " Raise points also inside 8 expression positions (遍历 target, 每当/如果/再如 condition, call argument, declaration, list item, 输出 value).",
+ "C09": " Raise points also inside 8 expression positions (遍历 target, 每当/如果/再如 condition, call argument, declaration, list item, 输出 value); call chains that cross one or two module-file boundaries (ZnEval frames carry their module; traces and chains compared as (file, line)).",
  "C10": " Plus 60 input-variable texts and the shape family: values that contain themselves (built through every storing method), objects reaching themselves, results of bodies that produce nothing, types/methods as values x 19 ways of consuming a value; the display recorder builds the text like the predefined 显示.",
  "C11": " Site kind collect-then-stable-sort with its non-injective-key deviation refuted; dictionary literals repeating a key under repetition; the same HTTP request (names differing only in case) served 64 times through ZnHttpHandler must get one answer.",
  "C12": " Dictionary literals with every pattern of repeated keys over <= 4 keys (first position, last value); the trace spec also binds `kept`: the last NEW collection handed out by 逆序/合并/所有索引/所有值 keeps its value whatever is done to the receiver afterwards.",
  "C13": " U+ escapes over {0,1,D,F}^<=8 and {0,1,8,D,F}^<=6 (zero padding, surrogates, > 10FFFF); every decode body with a complete back-tick sequence is replayed; failed escapes containing quotes of another family are demanded.",
  "C14": " One text VARIABLE observed (长度, 字数, 字符组, 分隔, 取样, the text) before / between / after ordered pairs of 12 text methods on 13 texts: every observation row is validated by TLC against Trace_ZnText (one character sequence must explain all observers).",
- "C15": " Four home-module probes per module (method, handler block, constructing body, type method).",
+ "C15": " Four home-module probes per module (method, handler block, constructing body, type method). Four imported modules: TLC checks the loader invariants on all 65536 digraphs x four import lists; quick replays a seeded 6000, thorough all 262144.",
  "C16": " As built: 9 polluters (also: write into the headers a response constructor supplied; run a FILE that imports a custom module file), 820 sequences (quick: all of <= 2 and 40 percent of 3), probe executed as a file.",
- "C18": " Plus faults in expression positions and faults raised inside handler blocks (rethrow / built-in fault): the report must end at the handler's own line below the frame whose call raised the handled exception.",
+ "C18": " Plus faults in expression positions and faults raised inside handler blocks (rethrow / built-in fault): the report must end at the handler's own line below the frame whose call raised the handled exception; call chains across module files (every chain entry compared as (file, line)).",
  "C19": " Keys range over 4 atoms incl. a key of control characters / DEL / backslash / a non-printable astral character.",
 }
 
